@@ -44,6 +44,7 @@ package record
 //@ ensures seg(result0, uvseglen(len(domain)), payloadType)
 //@ ensures seg(result0, uvseglen(len(domain)) + uvseglen(len(payloadType)), payload)
 //@ ensures forall j int :: 0 <= j && j < uvlen(len(domain)) ==> result0[j] == uvbyte(len(domain), j)
+//@ ensures fresh(result0)
 // the domain segment holds the bytes of []byte(domain) (fields[0] is a local: clause not exported to callers)
 //@ ensures called(Get, 0) && strsrc(fields[0]) == domain && len(fields[0]) == len(domain) && seg(result0, 0, fields[0])
 //@ modifies nothing
